@@ -23,6 +23,14 @@ def run(ctx):
     if res["violated"] or ctx.tlc_hard_errors(res):
         ctx.violation("tracing-model", {"tlc": (res["violated"] + res["errors"])[:3]}, {"kind": "tlc", "module": "Tracing", "cfg": "Tracing.cfg"})
         return
+    # layer S: enable/disable/toggle as two steps (thread-local step, then the store to the shared flag) with the
+    # other thread free to run in between refine the operation-granularity model (spec/TracingSys.tla)
+    rs = ctx.tlc("TracingSys", "TracingSys.cfg", workers=4, timeout=900, name="tracing-sys")
+    if rs["violated"] or rs["errors"]:
+        ctx.violation("two-step-model-does-not-refine", {"tlc": (rs["violated"] + rs["errors"])[:3]}, {"kind": "tlc", "module": "TracingSys", "cfg": "TracingSys.cfg"})
+    ctx.cov["steps"].append({"step": "layer S (two-step operations) refines the operation-granularity model", "distinct": rs["distinct"]})
+    sys_states, sys_trans = rs["distinct"], rs["generated"]
+    os.remove(rs["out_path"])
     h = ctx.harness(["replay-tracing"], stdin_path=res["out_path"])
     ctx.absorb(h)
     for pn in h["panics"]:
@@ -30,8 +38,8 @@ def run(ctx):
     s = h["summary"] or {"counts": {"lines": 0, "steps": 0}, "samples": []}
     if s["counts"]["lines"] != res["generated"] - 1:
         ctx.note("TLC generated %d transitions, %d replayed" % (res["generated"] - 1, s["counts"]["lines"]))
-    ctx.cov["states"] = res["distinct"]
-    ctx.cov["transitions"] = res["generated"]
+    ctx.cov["states"] = res["distinct"] + sys_states
+    ctx.cov["transitions"] = res["generated"] + sys_trans
     ctx.cov["evaluations"] = s["counts"]["steps"]
     ctx.cov["distinct_nontrivial"] = s["counts"]["lines"]
     ctx.cov["traces_validated_against_impl"] = s["counts"]["lines"]
